@@ -29,7 +29,15 @@ MODULE = ("Geodesy", "typhon/geodesy.py", [
     {"name": "great_circle_distance", "as": "great_circle_distance_r", "given_params": ["r"]},
     {"name": "tunnel_distance"},
     # position + line of sight, without the optional hints (ppc, lat0 … aa0 absent)
-    {"name": "geocentricposlos2cart", "glue": ["r, lat, lon, za, aa = _broadcast(r, lat, lon, za, aa)"]},
+    # broadcasting / ravel / reshape prologue and epilogue are shape glue (pointwise identity), declared verbatim
+    {"name": "geocentricposlos2cart", "glue": [
+        "r, lat, lon, za, aa = _broadcast(r, lat, lon, za, aa)",
+        "shape = r.shape",
+        "r, lat, lon, za, aa = (array.ravel() for array in (r, lat, lon, za, aa))"]},
     {"name": "cartposlos2geocentric", "none_params": ["ppc"] + LOS0,
-     "glue": ["x, y, z, dx, dy, dz = _broadcast(x, y, z, dx, dy, dz)"]},
+     "glue": ["args = [x, y, z, dx, dy, dz]",
+              "args = _broadcast(*args)",
+              "shape = args[0].shape",
+              "args = [arg.ravel() for arg in args]",
+              "x, y, z, dx, dy, dz = args[:6]"]},
 ])
